@@ -26,6 +26,9 @@
 //   still Locked) process on an instance - created after the snapshot - the stale answer is
 //   released; later list calls wait until a second process of that container has appeared or 1.5 s
 //   have passed.  The pool must not drop the instance it created after the list call began.
+//   draindeaf k: the first k VMs are put on "drain" by the operator while their container is Running
+//   and then stop answering; the container never finishes by itself: the instance must still be shut
+//   down (probe timeout) and the container cancelled
 //   breakfirst k: the first k VMs stop answering shortly after creation while their (long-running)
 //   containers are Running: the instances are shut down and the containers must be cancelled
 //   holdallms: for this long the operator puts every instance on hold as soon as the pool lists it
@@ -99,6 +102,7 @@ type vE2EScenario struct {
 	OneType        bool    `json:"onetype"`    // every container fits every instance
 	QuotaFirst     int     `json:"quotafirst"` // the first k Create calls of the cloud fail with a quota error
 	StaleList      bool    `json:"stalelist"`  // one answer of the cloud's list call is returned late (see vListGate)
+	DrainDeaf      int     `json:"draindeaf"`  // the first k VMs are drained by the operator while busy and then stop answering
 	BreakFirst     int     `json:"breakfirst"` // the first k VMs stop answering as soon as their container is Running
 }
 
@@ -365,6 +369,7 @@ type vE2ERun struct {
 	vms       []*test.StubVM
 	release   chan struct{} // closed to let blocked ExecuteContainer calls return (kf scenario)
 	nVM       int
+	opDrain   func(cloud.InstanceID) // the operator drains an instance for good (set once the run is under way)
 	gate      *vListGate
 	quota     *vQuotaFaults
 	reported  map[int]bool // VMs that have answered a probe with "broken"
@@ -397,6 +402,20 @@ func (e *vE2ERun) setupVM(svm *test.StubVM) {
 	svm.Boot = time.Now().Add(time.Duration(e.rndInt(5)) * time.Millisecond)
 	svm.CrunchRunDetachDelay = time.Duration(e.rndInt(10)) * time.Millisecond
 	svm.ExecuteContainer = func(ctr arvados.Container) int {
+		if n <= scn.DrainDeaf {
+			// the operator drains the instance while its container is Running, then the VM stops
+			// answering; the crunch-run never finishes by itself
+			e.vmMu.Lock()
+			drain := e.opDrain
+			e.vmMu.Unlock()
+			if drain != nil {
+				drain(cloud.InstanceID(svm.VID()))
+			}
+			svm.Lock()
+			svm.Broken = time.Now()
+			svm.Unlock()
+			<-e.release
+		}
 		if n <= scn.BreakFirst {
 			// the VM stops answering exactly while its container is Running
 			svm.Lock()
@@ -763,8 +782,12 @@ func vE2EOne(t *testing.T, scn *vE2EScenario, tw *vTraceWriter, hostpriv ssh.Sig
 	// later - an instance the dispatcher itself drains (it reported broken, unkillable container)
 	// must stay drained
 	opset := map[cloud.InstanceID]bool{}
-	setIB := func(id cloud.InstanceID, b worker.IdleBehavior) {
-		opset[id] = true
+	var opmu sync.Mutex
+	isOpset := func(id cloud.InstanceID) bool { opmu.Lock(); defer opmu.Unlock(); return opset[id] }
+	setIBx := func(id cloud.InstanceID, b worker.IdleBehavior, release bool) {
+		opmu.Lock()
+		opset[id] = release
+		opmu.Unlock()
 		w := vE2EInst(string(id))
 		e.rec.mu.Lock()
 		e.rec.ib[w] = "any"
@@ -780,6 +803,10 @@ func vE2EOne(t *testing.T, scn *vE2EScenario, tw *vTraceWriter, hostpriv ssh.Sig
 		e.rec.events = vAppend(e.rec.events, map[string]interface{}{"ev": "setib", "w": w, "b": nb})
 		e.rec.mu.Unlock()
 	}
+	setIB := func(id cloud.InstanceID, b worker.IdleBehavior) { setIBx(id, b, true) }
+	e.vmMu.Lock()
+	e.opDrain = func(id cloud.InstanceID) { setIBx(id, worker.IdleBehaviorDrain, false) } // never released
+	e.vmMu.Unlock()
 	if scn.HoldAllMs > 0 {
 		held := map[cloud.InstanceID]bool{}
 		for t0 := time.Now(); time.Since(t0) < time.Duration(scn.HoldAllMs)*time.Millisecond; time.Sleep(time.Millisecond) {
@@ -861,7 +888,7 @@ func vE2EOne(t *testing.T, scn *vE2EScenario, tw *vTraceWriter, hostpriv ssh.Sig
 
 	// quiesce: the operator releases every hold / drain (held instances are never shut down)
 	for _, iv := range e.disp.pool.Instances() {
-		if iv.IdleBehavior != worker.IdleBehaviorRun && opset[iv.Instance] {
+		if iv.IdleBehavior != worker.IdleBehaviorRun && isOpset(iv.Instance) {
 			setIB(iv.Instance, worker.IdleBehaviorRun)
 		}
 	}
@@ -877,7 +904,7 @@ func vE2EOne(t *testing.T, scn *vE2EScenario, tw *vTraceWriter, hostpriv ssh.Sig
 		}
 		// (a hold restored from the instance tags by a new dispatcher may show up late)
 		for _, iv := range e.disp.pool.Instances() {
-			if iv.IdleBehavior != worker.IdleBehaviorRun && opset[iv.Instance] {
+			if iv.IdleBehavior != worker.IdleBehaviorRun && isOpset(iv.Instance) {
 				setIB(iv.Instance, worker.IdleBehaviorRun)
 			}
 		}
